@@ -24,3 +24,4 @@ import Skv.Props.C17
 #print axioms C17_stall_has_work_scheduled
 #print axioms C17_checkpoints_without_wake_stall_for_good
 #print axioms C17_apply_excludes_rotation
+#print axioms C17_close_stops_background_tasks
